@@ -141,9 +141,14 @@ def judge_items(items, meta, res, count=True):
             msg = str(r[1])
             if 'multiple of 2' in msg:
                 res.count('refused_odd_jalr')
+            elif comp:
+                res.count('refused_other_compress')   # acceptance under -c of what assembles without it is C12's business
             else:
-                res.count('refused_other_compress' if comp else 'refused_other')
-            continue   # C07 speaks about what accepted pairs address; acceptance under -c is C12's business
+                # "for every 32-bit value v, %hi(v) fits the 20-bit field and %lo(v) the signed 12-bit field": a pair written with
+                # %hi/%lo of a 32-bit value cannot be out of range, whatever the spelling of the value
+                raise env.CaseFailure('pair_refused:u', 'a program of %%hi/%%lo pairs over 32-bit values is refused without -c: %s\n%s' % (msg[-300:], src[:600]),
+                                      {'kind': 'pairs', 'source': src, 'compress': comp, 'ir': progcheck.pack_prog(prog), 'meta': [(a, b) for a, b, _ in meta]})
+            continue
         out = r[1]
         w, _amb = refwalk._segment(items, out, {})
         if not w.complete:
